@@ -82,3 +82,29 @@ Theorem C13_fol_zero_means_unchanged : forall k roots s o,
   (snd (fexec_op k roots s o) == 0 -> forall i g, bnd_eq (fget s i g) (fget (fst (fexec_op k roots s o)) i g)).
 Proof. intros k roots s o. apply fexec_op_zero_sound. Qed.
 Print Assumptions C13_fol_zero_means_unchanged.
+
+(* ... and the converse, hence the full statement, for every public first-order inference operation: on a knowledge base
+   that passes the executable shape check `shape_okb` (how the library builds variable tuples; checked on every scenario of
+   the correspondence) and a state whose row keys have the arity of their formulae (true of the empty state, kept by every
+   operation: C13_fol_arity_kept), the reported amount is zero EXACTLY when no formula reads differently anywhere *)
+From LNN.proofs Require Import ArityProofs AmountFolIffProofs.
+Theorem C13_fol_zero_iff : forall k roots s o, shape_okb k = true -> FRange s -> arity_ok k s ->
+  0 <= snd (fexec_op k roots s o) /\
+  (snd (fexec_op k roots s o) == 0 <-> forall i g, bnd_eq (fget s i g) (fget (fst (fexec_op k roots s o)) i g)).
+Proof.
+  intros k roots s o Hs HR HA. destruct (shape_okb_sound k Hs) as (H1 & H2 & H3 & H4 & H5).
+  apply (fexec_op_zero_iff k H1 H2 H3 H4 H5 roots s o). split; assumption.
+Qed.
+Print Assumptions C13_fol_zero_iff.
+Theorem C13_fol_arity_kept : forall k roots s o, shape_okb k = true -> FRange s -> arity_ok k s ->
+  FRange (fst (fexec_op k roots s o)) /\ arity_ok k (fst (fexec_op k roots s o)).
+Proof.
+  intros k roots s o Hs HR HA. destruct (shape_okb_sound k Hs) as (H1 & H2 & H3 & H4 & H5).
+  apply (fexec_op_inv k H1 H2 H3 H4 H5 roots s o). split; assumption.
+Qed.
+Print Assumptions C13_fol_arity_kept.
+(* non-vacuity: And(P(x), Q(x, y)) -- operands with different variable tuples -- passes the shape check *)
+Example C13_fol_shape_example :
+  shape_okb [FObj FPred [] [] 1 (NP 1 1 [] VTransparent); FObj FPred [] [] 2 (NP 1 1 [] VTransparent);
+             FObj (FConn CAnd) [0%nat; 1%nat] [[0%nat]; [0%nat; 1%nat]] 2 (NP 1 1 [1; 1] VTransparent)] = true.
+Proof. vm_compute. reflexivity. Qed.
